@@ -23,6 +23,7 @@ import (
 	"errors"
 	"fmt"
 	"net/http"
+	"sync"
 	"time"
 
 	"github.com/nuts-foundation/go-did/did"
@@ -36,6 +37,9 @@ import (
 // s2sMaxPresentationValidity defines the maximum validity of a presentation.
 // This is to prevent replay attacks. The value is specified by Nuts RFC021, and excludes max. clock skew.
 const s2sMaxPresentationValidity = 5 * time.Second
+
+// s2sNonceMutex makes checking and registering a presentation nonce atomic (on this node).
+var s2sNonceMutex sync.Mutex
 
 // s2sMaxClockSkew defines the maximum clock skew between nodes.
 // The value is specified by Nuts RFC021.
@@ -171,6 +175,10 @@ func (r Wrapper) validateS2SPresentationNonce(presentation vc.VerifiablePresenta
 			Description:   "presentation has invalid/missing nonce",
 		}
 	}
+	// The check and the registration of the nonce are separate store operations: serialize them,
+	// otherwise concurrent requests presenting the same nonce can all find it unused.
+	s2sNonceMutex.Lock()
+	defer s2sNonceMutex.Unlock()
 	nonceError := r.s2sNonceStore().Get(nonce, new(bool))
 	if nonceError != nil && errors.Is(nonceError, storage.ErrNotFound) {
 		// this is OK, nonce has not been used before
